@@ -235,9 +235,9 @@ func (z *Decimal) Parse(s string, base int) (d *Decimal, b int, err error) {
 
 	// entire string must have been consumed
 	if ch, err2 := r.ReadByte(); err2 == nil {
-		err = fmt.Errorf("expected end of string, found %q", ch)
+		d, err = nil, fmt.Errorf("expected end of string, found %q", ch)
 	} else if err2 != io.EOF {
-		err = err2
+		d, err = nil, err2
 	}
 
 	return
